@@ -107,18 +107,23 @@ def replay_history(ctx, hist, log, key_kind, mempool_key, where='replay'):
             s.build(e[1], e[2])
             continue
         ncall += 1
-        if e[0] == 'fill':
-            s.fill(e[1])
-        elif e[0] == 'autofill':
-            s.autofill(e[1], e[2])
-        elif e[0] == 'bake':
-            s.bake()
-        elif e[0] in ('inject', 'send'):
-            rec = s.inject(e[1]) if e[0] == 'inject' else s.send(e[1])[1]
-            ninj += 1
-            followed = judge(ctx, rec, by_at.get(ncall), followed, case, where) and followed
-        else:
-            raise ValueError(e)
+        try:
+            if e[0] == 'fill':
+                s.fill(e[1])
+            elif e[0] == 'autofill':
+                s.autofill(e[1], e[2])
+            elif e[0] == 'bake':
+                s.bake()
+            elif e[0] in ('inject', 'send'):
+                rec = s.inject(e[1]) if e[0] == 'inject' else s.send(e[1])[1]
+                ninj += 1
+                followed = judge(ctx, rec, by_at.get(ncall), followed, case, where) and followed
+            else:
+                raise KeyError(e)
+        except (ValueError, TypeError, AttributeError) as ex:
+            # the client itself refuses a call of a history the model performs (the node was never the one to complain)
+            ctx.mismatch('C25:%s:client-raises:%s:%s' % (where, e[0], type(ex).__name__), 'call #%d %s of %s raised %s: %s' % (ncall, e[0], to_json(hist), type(ex).__name__, str(ex)[:200]), case)
+            return ninj
     if s.node.unknown:
         raise RuntimeError('FakeNode does not know %s' % s.node.unknown[:3])
     return ninj
